@@ -161,7 +161,8 @@ func par(e Expr, s string) string {
 func mach(e Expr) string {
 	switch x := e.(type) {
 	case Lit:
-		return x.V.String()
+		// always ascribed: Lean's elaboration of unascribed numerals depends on context
+		return "(" + x.V.String() + " : " + x.T.lean() + ")"
 	case Atom:
 		return x.Name
 	case Bin:
@@ -183,7 +184,11 @@ func mach(e Expr) string {
 		if from == TNat {
 			return x.To.lean() + ".ofNat " + par(x.X, mach(x.X))
 		}
-		return par(x.X, mach(x.X)) + ".to" + x.To.lean()
+		if isAtomic(x.X) {
+			return mach(x.X) + ".to" + x.To.lean()
+		}
+		// the ascription gives the literals inside the operand their type
+		return "(" + mach(x.X) + " : " + from.lean() + ").to" + x.To.lean()
 	case Cmp:
 		return par(x.L, mach(x.L)) + " " + cmpOp[x.Op] + " " + par(x.R, mach(x.R))
 	}
